@@ -34,7 +34,21 @@ def r1_snapshot(ctx, rid="C02.R1", title="snapshot of (name,)+sorted_children be
     import re as _re
     tc_ok = _re.fullmatch(r"if \$0 is \$0\.REF; return \$1; return \{(%\d+): copy\.deepcopy\((%\d+)\) for \1, \2 in \$1\.items\(\)\}", tl) is not None \
         or _re.fullmatch(r"if \$0 is \$0\.REF; return \$1; return copy\.deepcopy\(\$1\)", tl) is not None
-    ctx.form(rid, tc, tc.node, tl, {tl} if tc_ok else set(), ["return $1", "copy.deepcopy("], "to_cache keeps every key (by reference, or deep-copied)",
+    # helpers of the module the snapshot goes through: a copy may be taken there
+    helper_txt = ""
+    for c_ in ast.walk(tc.node):
+        if isinstance(c_, ast.Call) and isinstance(c_.func, (ast.Attribute, ast.Name)):
+            hn = c_.func.attr if isinstance(c_.func, ast.Attribute) else c_.func.id
+            for hf in ctx.ix.iter_funcs():
+                if hf.mod == STATE and hf.name == hn and hf.key != tc.key:
+                    helper_txt += ast.unparse(hf.node)
+    copies_somewhere = any(tok in tl + helper_txt for tok in ("deepcopy(", ".clone(", "torch.clone("))
+    if not copies_somewhere:
+        ctx.violation(rid, tc, tc.node, f"the COPY strategy of the snapshot no longer deep-copies what it keeps (`{tl[-110:]}`): a `detach()` / `clone`-less copy shares its storage with the live tensors, "
+                      "so a caller that recycles a tensor it read from the state changes what a revert restores - the very case the COPY strategy exists for", construct="to_cache copies under COPY")
+        tc_ok = None
+    if tc_ok is not None:
+      ctx.form(rid, tc, tc.node, tl, {tl} if tc_ok else set(), ["return $1", "copy.deepcopy("], "to_cache keeps every key (by reference, or deep-copied)",
              "StateForkType.to_cache no longer returns every entry it is given: an entry left out of the snapshot (e.g. a derived value that is still unset) is not reset by a revert, "
              "so what was computed from the rejected assignment stays in the cache", forbidden=[r"\bfor\b[^{}]*\bif\b", r"is not None", r"\.pop\("], construct="to_cache keeps every key")
     f = ctx.ix.func(STATE, "State.__setitem__", rid)
